@@ -118,3 +118,36 @@ def _trunc_ghost_cases():
 
 contract("ghost:truncated_commutes_and_idempotent", use_at_calls=False,
          cases=_trunc_ghost_cases())
+
+
+def _rec_ghosts():
+    from .recurrence_t3 import mk_rec, KINDS
+    contract("ghost:rec_three_notations_equal", use_at_calls=False,
+             requires=["normal24(s)", "time_normal(s)"],
+             cases=[Case("cal-hms", lambda E, st: {
+                 "s": mk_timepoint(E, st, "s", "cal", "hms"),
+                 "d": mk_duration(E, st, "d", "exact"), "n": E.sym_int("n")},
+                 witness={"p:n": 3})])
+    contract("ghost:rec_shift_and_back", use_at_calls=False,
+             requires=["rec_ok(r)", "r._min_point is None and r._max_point is None"],
+             cases=[Case("%s+%s" % (k, f), lambda E, st, k=k, f=f: {
+                 "r": mk_rec(E, st, "r", k), "d": mk_duration(E, st, "d", f)},
+                 witness={"p:r._repetitions": 2} if k == "fwd-bounded" else {})
+                 for k in KINDS for f in ("exact",)])
+    pairs = [("fwd-bounded", "fwd-bounded"), ("fwd-unbounded", "fwd-unbounded"),
+             ("rev-unbounded", "rev-unbounded"), ("single", "single"),
+             ("fwd-bounded", "single")]
+    for nm in ("rec_equal_implies_equal_hash", "rec_unequal_when_one_component_differs"):
+        prs = pairs[:-1] if nm == "rec_equal_implies_equal_hash" else pairs
+        contract("ghost:" + nm, use_at_calls=False,
+                 requires=["rec_ok(a)", "rec_ok(b)",
+                           "a._min_point is None and a._max_point is None"
+                           " and b._min_point is None and b._max_point is None"],
+                 cases=[Case("%s/%s" % (x, y), lambda E, st, x=x, y=y: {
+                     "a": mk_rec(E, st, "a", x), "b": mk_rec(E, st, "b", y,
+                                                             date="ord", time="hm")},
+                     witness={"p:a._repetitions": 2, "p:b._repetitions": 2}
+                     if "bounded" in x + y else {}) for (x, y) in prs])
+
+
+_rec_ghosts()
